@@ -30,6 +30,96 @@ pub struct Case {
     pub hist: History,
     pub compact: bool,
     pub mode: Mode,
+    /// stand-off mode: changes made to the store after it was loaded from its stand-off files and saved once; the
+    /// next save must bring every file up to date
+    #[serde(default)]
+    pub grow: Vec<Grow>,
+}
+
+#[derive(Clone, Debug, Serialize, Deserialize, PartialEq)]
+pub enum Grow {
+    /// declare a new key in the k-th dataset (no data)
+    BareKey { set: u16 },
+    /// insert a new data item (new key) into the k-th dataset
+    InsertData { set: u16 },
+    /// a new annotation on the whole text of the k-th resource with new data in the k-th dataset
+    Annotate { res: u16, set: u16 },
+    RemoveAnnotation { pick: u16 },
+    RemoveData { set: u16, pick: u16 },
+}
+
+/// apply the changes through the public API, addressing items by their position among the live items (the same in a
+/// store loaded from stand-off files and in one loaded from the inline document); Err = a call failed
+fn apply_grow(store: &mut AnnotationStore, ops: &[Grow]) -> Result<Vec<&'static str>, String> {
+    let mut done = vec![];
+    for (i, op) in ops.iter().enumerate() {
+        match op {
+            Grow::BareKey { set } => {
+                let sets: Vec<AnnotationDataSetHandle> = store.datasets().map(|d| d.handle()).collect();
+                if sets.is_empty() {
+                    continue;
+                }
+                let h = sets[pick(*set, sets.len())];
+                let name = format!("grown-key-{}", i);
+                let ds: &mut AnnotationDataSet = store.get_mut(h).map_err(|e| format!("{}", e))?;
+                ds.insert(DataKey::new(name)).map_err(|e| format!("insert(DataKey): {}", e))?;
+                done.push("grow.bare_key");
+            }
+            Grow::InsertData { set } => {
+                let sets: Vec<AnnotationDataSetHandle> = store.datasets().map(|d| d.handle()).collect();
+                if sets.is_empty() {
+                    continue;
+                }
+                let h = sets[pick(*set, sets.len())];
+                store
+                    .insert_data(AnnotationDataBuilder::new().with_dataset(BuildItem::Handle(h)).with_key(BuildItem::Id(format!("grown-k-{}", i))).with_value(DataValue::String(format!("grown value {}", i))))
+                    .map_err(|e| format!("insert_data: {}", e))?;
+                done.push("grow.insert_data");
+            }
+            Grow::Annotate { res, set } => {
+                let ress: Vec<TextResourceHandle> = store.resources().map(|r| r.handle()).collect();
+                let sets: Vec<AnnotationDataSetHandle> = store.datasets().map(|d| d.handle()).collect();
+                if ress.is_empty() || sets.is_empty() {
+                    continue;
+                }
+                let r = ress[pick(*res, ress.len())];
+                let h = sets[pick(*set, sets.len())];
+                store
+                    .annotate(
+                        AnnotationBuilder::new()
+                            .with_id(format!("grown-annotation-{}", i))
+                            .with_target(SelectorBuilder::textselector(BuildItem::Handle(r), Offset::whole()))
+                            .with_data_builder(AnnotationDataBuilder::new().with_dataset(BuildItem::Handle(h)).with_key(BuildItem::Id(format!("grown-ak-{}", i))).with_value(DataValue::Int(i as isize))),
+                    )
+                    .map_err(|e| format!("annotate: {}", e))?;
+                done.push("grow.annotate");
+            }
+            Grow::RemoveAnnotation { pick: p } => {
+                let anns: Vec<AnnotationHandle> = store.annotations().map(|a| a.handle()).collect();
+                if anns.is_empty() {
+                    continue;
+                }
+                let a = anns[pick(*p, anns.len())];
+                store.remove_annotation(a).map_err(|e| format!("remove_annotation: {}", e))?;
+                done.push("grow.remove_annotation");
+            }
+            Grow::RemoveData { set, pick: p } => {
+                let sets: Vec<AnnotationDataSetHandle> = store.datasets().map(|d| d.handle()).collect();
+                if sets.is_empty() {
+                    continue;
+                }
+                let h = sets[pick(*set, sets.len())];
+                let data: Vec<AnnotationDataHandle> = store.dataset(h).map(|d| d.data().map(|x| x.handle()).collect()).unwrap_or_default();
+                if data.is_empty() {
+                    continue;
+                }
+                let d = data[pick(*p, data.len())];
+                store.remove_data(h, d, false).map_err(|e| format!("remove_data: {}", e))?;
+                done.push("grow.remove_data");
+            }
+        }
+    }
+    Ok(done)
 }
 
 static COUNTER: AtomicU64 = AtomicU64::new(0);
@@ -167,7 +257,7 @@ impl Property for C05 {
         "C05"
     }
     fn rule(&self) -> String {
-        "case = final store of a C01 history (so with gaps, id-less items, every selector kind, end-aligned and relative offsets, all value types) x pretty/compact x {one document through to_json_string/from_str, one file through to_file/from_file, resources and datasets moved to @include stand-off files (.txt / .json), one level of included sub-store}. Oracle: the reload succeeds; the handle-free content snapshot (ordered live items, references as ordinals, offsets with alignment, typed values, texts) of the reloaded store equals the original's; the reloaded store is self-consistent (C01 consistency battery); writing the reloaded store again gives byte-identical output (for stand-off: every file). Non-trivial = the store has a gap, an id-less item, a key/data selector or an end-aligned/relative offset; distinct = distinct case JSON.".into()
+        "case = final store of a C01 history (so with gaps, id-less items, every selector kind, end-aligned and relative offsets, all value types) x pretty/compact x {one document through to_json_string/from_str, one file through to_file/from_file, resources and datasets moved to @include stand-off files (.txt / .json), one level of included sub-store}. Oracle: the reload succeeds; the handle-free content snapshot (ordered live items, references as ordinals, offsets with alignment, typed values, texts) of the reloaded store equals the original's; the reloaded store is self-consistent (C01 consistency battery); writing the reloaded store again gives byte-identical output (for stand-off: every file); in stand-off mode the loaded and saved store is then changed through the API (new key, new data, new annotation, removals), saved and reloaded, and must equal a twin loaded from the inline document that received the same changes (the changed flags of the members decide which files are rewritten). Non-trivial = the store has a gap, an id-less item, a key/data selector or an end-aligned/relative offset; distinct = distinct case JSON.".into()
     }
     fn assumptions(&self) -> Vec<String> {
         vec![
@@ -177,7 +267,7 @@ impl Property for C05 {
         ]
     }
     fn cases(&self, tier: Tier) -> u64 {
-        tier.pick(1_000_000, 10_000_000)
+        tier.pick(600_000, 8_000_000)
     }
     fn strategy(&self, tier: Tier) -> BoxedStrategy<Case> {
         let cfg = HistCfg {
@@ -189,14 +279,22 @@ impl Property for C05 {
             ..HistCfg::default()
         };
         let mode = prop_oneof![
-            8 => Just(Mode::Inline),
+            5 => Just(Mode::Inline),
             1 => Just(Mode::InlineFile),
-            1 => any::<bool>().prop_map(|json_resources| Mode::Standoff { json_resources }),
-            1 => (any::<u16>(), any::<bool>()).prop_map(|(cut, standoff)| Mode::Substore { cut, standoff }),
+            3 => any::<bool>().prop_map(|json_resources| Mode::Standoff { json_resources }),
+            2 => (any::<u16>(), any::<bool>()).prop_map(|(cut, standoff)| Mode::Substore { cut, standoff }),
         ];
+        let grow_op = prop_oneof![
+            3 => any::<u16>().prop_map(|set| Grow::BareKey { set }),
+            3 => any::<u16>().prop_map(|set| Grow::InsertData { set }),
+            3 => (any::<u16>(), any::<u16>()).prop_map(|(res, set)| Grow::Annotate { res, set }),
+            2 => any::<u16>().prop_map(|pick| Grow::RemoveAnnotation { pick }),
+            2 => (any::<u16>(), any::<u16>()).prop_map(|(set, pick)| Grow::RemoveData { set, pick }),
+        ];
+        let grow = prop_oneof![1 => Just(vec![]), 3 => proptest::collection::vec(grow_op, 1..=2)];
         let hostile_cfg = HistCfg { hostile: true, ..cfg.clone() };
-        (prop_oneof![4 => history_strategy(cfg), 1 => history_strategy(hostile_cfg)], any::<bool>(), mode)
-            .prop_map(|(hist, compact, mode)| Case { hist, compact, mode })
+        (prop_oneof![4 => history_strategy(cfg), 1 => history_strategy(hostile_cfg)], any::<bool>(), mode, grow)
+            .prop_map(|(hist, compact, mode, grow)| Case { hist, compact, mode, grow })
             .boxed()
     }
 
@@ -351,6 +449,64 @@ impl Property for C05 {
                     }
                     Ok(Err(e)) => out.fail("fixpoint", "save-err|standoff", format!("second save failed: {}", e)),
                     Err(p) => out.fail("fixpoint", format!("{}|standoff", p.signature()), format!("second save panicked: {}", p.msg)),
+                }
+                // ---- the loaded (and saved) store is changed through the API and saved again: every stand-off file must
+                // follow. Oracle: a twin loaded from the inline document that received the same changes.
+                if !case.grow.is_empty() && out.failures.is_empty() {
+                    let mut store3 = store3;
+                    let Some(mut twin) = load_str(&s1, case.compact, &mut out, "grow-twin") else { return out };
+                    let r_twin = catch(|| apply_grow(&mut twin, &case.grow));
+                    let r_main = catch(|| apply_grow(&mut store3, &case.grow));
+                    match (r_twin, r_main) {
+                        (Ok(Ok(done)), Ok(Ok(done2))) if done == done2 && !done.is_empty() => {
+                            for l in &done {
+                                out.label(l);
+                            }
+                            let expected = match catch(|| observe(&twin)) {
+                                Ok(o) => content(&o),
+                                Err(_) => {
+                                    out.label("stopped_at_foreign_divergence");
+                                    return out;
+                                }
+                            };
+                            match catch(|| store3.save()) {
+                                Ok(Ok(())) => {}
+                                Ok(Err(e)) => {
+                                    out.fail("grow", "save-err|standoff", format!("save() after {:?} failed: {}", case.grow, e));
+                                    return out;
+                                }
+                                Err(p) => {
+                                    out.fail("grow", format!("{}|standoff", p.signature()), format!("save() after {:?} panicked: {}", case.grow, p.msg));
+                                    return out;
+                                }
+                            }
+                            drop(store3);
+                            let Some(store4) = load_file_include(&main, case.compact, &dir, &mut out, "reload-after-grow") else { return out };
+                            let obs4 = match catch(|| observe(&store4)) {
+                                Ok(o) => o,
+                                Err(p) => {
+                                    out.fail("grow", format!("traverse|{}", p.signature()), format!("traversing the store reloaded after {:?} panicked: {}", case.grow, p.msg));
+                                    return out;
+                                }
+                            };
+                            out.checks += 1;
+                            let diffs = compare(&expected, &content(&obs4), true, &value_text);
+                            for (facet, sig, detail) in diffs {
+                                out.fail("grow", format!("{}|{}|{}", facet, sig, done.join("+")), format!("after {:?} on the store loaded from stand-off files, save() and reload: {}", case.grow, detail));
+                            }
+                        }
+                        (Ok(Ok(_)), Ok(Ok(_))) => out.label("grow.nothing_applied"),
+                        (Ok(Err(_)), Ok(Err(_))) => out.label("grow.rejected_by_both"),
+                        (Err(_), Err(_)) => out.label("grow.panics_in_both"),
+                        (a, b) => {
+                            let f = |r: &Result<Result<Vec<&'static str>, String>, PanicInfo>| match r {
+                                Ok(Ok(d)) => format!("Ok({:?})", d),
+                                Ok(Err(e)) => format!("Err({})", e),
+                                Err(p) => format!("panic({})", p.msg),
+                            };
+                            out.fail("grow", "outcome-differs|standoff", format!("the changes {:?} gave {} on the store loaded from the inline document but {} on the store loaded from stand-off files", case.grow, f(&a), f(&b)));
+                        }
+                    }
                 }
             }
             Mode::Substore { cut, standoff } => {
